@@ -207,6 +207,24 @@ func genCase(t *rapid.T) Case {
 				s3.Evs = append(s3.Evs, Ev{K: "addlink", A: e[0], B: e[1], NewF: nf})
 				m.linkUp[lkey(e[0], e[1])] = true
 			}
+			// the bursting router keeps publishing while the peer catches up: a snapshot the peer
+			// fetched may be older than the newest sequence number it has heard of by the time it
+			// is processed (seeded C19-r5-2 skipped the operations in between)
+			if rapid.IntRange(0, 2).Draw(t, "publishWhileCatchingUp") != 0 {
+				// (the peer starts fetching when the next sync Interest of the heart-beat reaches it)
+				s3.Evs[len(s3.Evs)-1].Gap = rapid.SampledFrom([]int{0, 700, 2500, 4900, 5000, 5100, 5500, 6000, 10100}).Draw(t, "rejoinGap")
+				for k := rapid.IntRange(1, 3).Draw(t, "nLate"); k > 0; k-- {
+					p := rapid.IntRange(0, len(prefixPool)-1).Draw(t, "latePrefix")
+					gap := rapid.SampledFrom([]int{0, 5, 40, 120, 300, 700}).Draw(t, "lateGap")
+					if m.ann[x][p] {
+						delete(m.ann[x], p)
+						s3.Evs = append(s3.Evs, Ev{K: "wd", A: x, P: p, Gap: gap})
+					} else {
+						m.ann[x][p] = true
+						s3.Evs = append(s3.Evs, Ev{K: "ann", A: x, P: p, Gap: gap})
+					}
+				}
+			}
 			s3.Chaos = chaos
 			c.Steps = append(c.Steps, s1, s2, s3)
 		}
